@@ -142,7 +142,7 @@ func genNode14(rng *Rng, depth int, wantMap bool) *gnode {
 		g := &gnode{kind: 2}
 		elemMap := rng.Chance(70)
 		for i := 0; i < n; i++ {
-			if elemMap && rng.Chance(12) { // a stray scalar / null among keyed elements
+			if elemMap && rng.Chance(20) { // a stray scalar / null among keyed elements
 				g.vals = append(g.vals, &gnode{kind: 0, text: rng.Pick(c14Scalars)})
 				continue
 			}
